@@ -1,11 +1,10 @@
 import PPProofs.Lemmas.ParseTerm
 /-
-  Towards termination on RECURSIVE grammars (see the closing comment of Props/C06Term.lean): the `…_nohang` lemmas with
-  the location-restricted hypothesis `NHge p e L` — the nested call does not hang at locations `≥ L` — which is what a
-  lexicographic induction on (remaining input, rank) can supply.  INTERMEDIATE: the family below covers try_parse /
-  can_parse_next, pre-parsing, `And` (with the sharper statement: operands after one that consumed need `NHge … (loc+1)`
-  only), `MatchFirst`, `Or`, repetition, plain enhancement; `SkipTo`, `parseImpl`, `parseStep` and the final induction
-  are not ported.
+  Termination on RECURSIVE grammars (Props/C06Rec.lean): the `…_nohang` lemmas with the location-restricted hypothesis
+  `NHge p e L` — the nested call does not hang at locations `≥ L` — which is what a lexicographic induction on
+  (remaining input, rank) can supply.  Covers try_parse / can_parse_next, pre-parsing, `And` (with the sharper statement:
+  operands after one that consumed are needed from `loc + 1` on only, and only while `loc ≤ len`), `MatchFirst`, `Or`,
+  repetition, plain enhancement, `parseImpl`, `parseStep`.  NOT ported: `SkipTo` (excluded by `NodeOkGe.noSkip`).
 -/
 namespace PP.Parse
 
